@@ -170,14 +170,14 @@ Qed.
 
 (* ------------------------------------------------------------------ *)
 (** * Each LP of the loops is bounded below by its own relaxed row *)
-Lemma relaxed_not_unbounded (a : list Q) (b : Q) (rows : list row) :
-  unbounded_below (mkLP (map qneg a) rows) -> In (a, qadd b 1) rows -> False.
+Lemma relaxed_not_unbounded (vs : list var) (a : list Q) (b : Q) (rows : list row) :
+  unbounded_below (mkLP vs (map qneg a) rows) -> In (a, qadd b 1) rows -> False.
 Proof.
   intros Hu Hin. destruct (Hu (- (Q2R b + 1))) as [x [_ [Hf Hv]]]. simpl in *.
   apply (feas_in _ _ _ Hf) in Hin. simpl in Hin.
   rewrite dot_map_qneg in Hv. rewrite Q2R_qadd, Q2R_1 in Hin. lra.
 Qed.
-Lemma zero_not_unbounded m rows : unbounded_below (mkLP (repeat 0%Q m) rows) -> False.
+Lemma zero_not_unbounded (vs : list var) m rows : unbounded_below (mkLP vs (repeat 0%Q m) rows) -> False.
 Proof.
   intros Hu. destruct (Hu 0) as [x [_ [_ Hv]]]. simpl in Hv. rewrite dot_repeat0 in Hv. lra.
 Qed.
@@ -188,9 +188,10 @@ Section Reduce.
 Variable O : oracle.
 Hypothesis HO : lp_spec 0 O.
 Variable n : nat.
+Variable vs : list var.   (* column names: irrelevant to lp_spec *)
 
 Lemma reduce_loop_subseq kept rest ctx red :
-  reduce_loop O kept rest ctx = inl red -> exists sub, subseq sub rest /\ red = kept ++ sub.
+  reduce_loop O vs kept rest ctx = inl red -> exists sub, subseq sub rest /\ red = kept ++ sub.
 Proof.
   revert kept. induction rest as [|[a b] rest IH]; intros kept H; simpl in H.
   - inversion H; subst. exists []. split; [constructor|rewrite app_nil_r; reflexivity].
@@ -207,13 +208,13 @@ Qed.
 (* a row that is dropped is implied by the others *)
 Lemma dropped_row_implied kept a b rest ctx :
   List.length a = n ->
-  (match O (mkLP (map qneg a) (kept ++ (a, qadd b 1) :: rest ++ ctx)) with
+  (match O (mkLP vs (map qneg a) (kept ++ (a, qadd b 1) :: rest ++ ctx)) with
    | LpUnbounded => True
    | LpOpt f _ => qle (qneg f) b = true
    | _ => False end) ->
   forall x, List.length x = n -> feas (kept ++ rest ++ ctx) x -> dot a x <= Q2R b.
 Proof.
-  intros La Hans. pose proof (HO (mkLP (map qneg a) (kept ++ (a, qadd b 1) :: rest ++ ctx))) as Hs.
+  intros La Hans. pose proof (HO (mkLP vs (map qneg a) (kept ++ (a, qadd b 1) :: rest ++ ctx))) as Hs.
   destruct (O _) as [f s| | |st|]; try contradiction.
   - destruct Hs as [[x0 [P0 [F0 V0]]] Hall]. unfold point_of, dim in *. simpl in *.
     rewrite map_length in *. apply qle_true in Hans. rewrite Q2R_qneg in Hans.
@@ -234,20 +235,20 @@ Qed.
 
 Lemma reduce_loop_implies kept rest ctx red :
   wf_rows n rest ->
-  reduce_loop O kept rest ctx = inl red ->
+  reduce_loop O vs kept rest ctx = inl red ->
   forall x, List.length x = n -> feas ctx x -> feas red x -> feas (kept ++ rest) x.
 Proof.
   revert kept. induction rest as [|[a b] rest IH]; intros kept Hw H x Lx Fc Fr; simpl in H.
   - inversion H; subst. rewrite app_nil_r. exact Fr.
   - apply wf_rows_cons in Hw. destruct Hw as [La Hw]. simpl in La.
     pose proof (dropped_row_implied kept a b rest ctx La) as Hd.
-    assert (Drop : reduce_loop O kept rest ctx = inl red ->
+    assert (Drop : reduce_loop O vs kept rest ctx = inl red ->
                    (forall x, List.length x = n -> feas (kept ++ rest ++ ctx) x -> dot a x <= Q2R b) ->
                    feas (kept ++ (a, b) :: rest) x).
     { intros H' Himp. specialize (IH _ Hw H' x Lx Fc Fr). apply feas_app in IH.
       apply feas_app. split; [tauto|]. apply feas_cons. split; [|tauto]. simpl.
       apply Himp; [exact Lx|]. apply feas_app. split; [tauto|]. apply feas_app. tauto. }
-    assert (Keep : reduce_loop O (kept ++ [(a, b)]) rest ctx = inl red ->
+    assert (Keep : reduce_loop O vs (kept ++ [(a, b)]) rest ctx = inl red ->
                    feas (kept ++ (a, b) :: rest) x).
     { intros H'. specialize (IH _ Hw H' x Lx Fc Fr). rewrite <- app_assoc in IH. exact IH. }
     destruct (O _) as [f s| | |st|]; try discriminate.
@@ -260,7 +261,7 @@ Qed.
 
 Lemma reduce_loop_equiv kept rest ctx red :
   wf_rows n rest ->
-  reduce_loop O kept rest ctx = inl red ->
+  reduce_loop O vs kept rest ctx = inl red ->
   forall x, List.length x = n -> feas ctx x -> (feas red x <-> feas (kept ++ rest) x).
 Proof.
   intros Hw H x Lx Fc. split.
@@ -271,7 +272,7 @@ Proof.
 Qed.
 
 Lemma reduce_loop_error kept rest ctx :
-  reduce_loop O kept rest ctx = inr ValueErr ->
+  reduce_loop O vs kept rest ctx = inr ValueErr ->
   forall x, List.length x = n -> wf_rows n rest -> ~ feas (kept ++ rest ++ ctx) x.
 Proof.
   revert kept. induction rest as [|[a b] rest IH]; intros kept H x Lx Hw F; simpl in H.
@@ -285,7 +286,7 @@ Proof.
       apply feas_cons in F. tauto. }
     assert (Fkeep : feas ((kept ++ [(a, b)]) ++ rest ++ ctx) x).
     { rewrite <- app_assoc. exact F. }
-    pose proof (HO (mkLP (map qneg a) (kept ++ (a, qadd b 1) :: rest ++ ctx))) as Hs.
+    pose proof (HO (mkLP vs (map qneg a) (kept ++ (a, qadd b 1) :: rest ++ ctx))) as Hs.
     destruct (O _) as [f s| | |st|]; try discriminate.
     + destruct (qle (qneg f) b); eapply IH; eauto.
     + destruct Hs as [Hs|Hs].
@@ -296,7 +297,7 @@ Proof.
 Qed.
 
 Lemma reduce_loop_errors_only kept rest ctx e :
-  reduce_loop O kept rest ctx = inr e -> e = ValueErr \/ e = OracleMiss.
+  reduce_loop O vs kept rest ctx = inr e -> e = ValueErr \/ e = OracleMiss.
 Proof.
   revert kept. induction rest as [|[a b] rest IH]; intros kept H; simpl in H.
   - discriminate.
@@ -330,7 +331,7 @@ Hypothesis HT : lp_total O.
 
 Lemma reduce_loop_irredundant kept rest ctx red :
   wf_rows n rest ->
-  reduce_loop O kept rest ctx = inl red ->
+  reduce_loop O vs kept rest ctx = inl red ->
   (forall pre r post, kept = pre ++ r :: post -> witness ctx r (pre ++ post ++ rest)) ->
   forall pre r post, red = pre ++ r :: post -> witness ctx r (pre ++ post).
 Proof.
@@ -338,12 +339,12 @@ Proof.
   - inversion H; subst. intros pre r post E. specialize (Hk _ _ _ E).
     rewrite app_nil_r in Hk. exact Hk.
   - apply wf_rows_cons in Hw. destruct Hw as [La Hw]. simpl in La.
-    assert (Drop : reduce_loop O kept rest ctx = inl red ->
+    assert (Drop : reduce_loop O vs kept rest ctx = inl red ->
               forall pre r post, red = pre ++ r :: post -> witness ctx r (pre ++ post)).
     { intros H'. apply (IH _ Hw H'). intros pre r post E. specialize (Hk _ _ _ E).
       eapply witness_incl; [|exact Hk]. intros y Hy. rewrite !in_app_iff in *. simpl. tauto. }
-    pose proof (HO (mkLP (map qneg a) (kept ++ (a, qadd b 1) :: rest ++ ctx))) as Hs.
-    pose proof (HT (mkLP (map qneg a) (kept ++ (a, qadd b 1) :: rest ++ ctx))) as Ht.
+    pose proof (HO (mkLP vs (map qneg a) (kept ++ (a, qadd b 1) :: rest ++ ctx))) as Hs.
+    pose proof (HT (mkLP vs (map qneg a) (kept ++ (a, qadd b 1) :: rest ++ ctx))) as Ht.
     destruct (O _) as [f s| | |st|]; try discriminate; try contradiction.
     + destruct (qle (qneg f) b) eqn:E; [apply Drop; exact H|].
       apply (IH _ Hw H). intros pre r post Es.
@@ -366,33 +367,41 @@ End Reduce.
 Section Empty.
 Variable O : oracle.
 Hypothesis HO : lp_spec 0 O.
+Variable vs : list var.
 
-Lemma is_polytope_empty_true m rows :
-  is_polytope_empty O m rows = inl true -> forall x, List.length x = m -> ~ feas rows x.
+Lemma is_polytope_empty_true rows :
+  is_polytope_empty O vs rows = inl true -> forall x, List.length x = List.length vs -> ~ feas rows x.
 Proof.
   unfold is_polytope_empty. destruct rows as [|r rows]; [discriminate|].
-  pose proof (HO (mkLP (repeat 0%Q m) (r :: rows))) as Hs.
+  destruct (Nat.eqb (List.length vs) 0); [discriminate|].
+  pose proof (HO (mkLP vs (repeat 0%Q (List.length vs)) (r :: rows))) as Hs.
   destruct (O _) as [f s| | |st|]; try discriminate.
   intros _ x Lx. destruct Hs as [Hs|Hs].
   - apply Hs. unfold point_of, dim. simpl. rewrite repeat_length. exact Lx.
   - exfalso. eapply zero_not_unbounded; exact Hs.
 Qed.
-Lemma is_polytope_empty_false m rows :
-  is_polytope_empty O m rows = inl false -> exists x, List.length x = m /\ feas rows x.
+(* with no column at all (m = 0) the code answers "not empty" without asking the solver *)
+Lemma is_polytope_empty_false rows :
+  rows = [] \/ vs <> [] ->
+  is_polytope_empty O vs rows = inl false -> exists x, List.length x = List.length vs /\ feas rows x.
 Proof.
-  unfold is_polytope_empty. destruct rows as [|r rows].
-  - intros _. exists (repeat 0 m). split; [apply repeat_length|apply feas_nil].
-  - pose proof (HO (mkLP (repeat 0%Q m) (r :: rows))) as Hs.
+  unfold is_polytope_empty. intros Hne. destruct rows as [|r rows].
+  - intros _. exists (repeat 0 (List.length vs)). split; [apply repeat_length|apply feas_nil].
+  - destruct Hne as [Hne|Hne]; [discriminate|].
+    destruct (Nat.eqb (List.length vs) 0) eqn:E0.
+    { apply Nat.eqb_eq in E0. destruct vs; [congruence|discriminate]. }
+    pose proof (HO (mkLP vs (repeat 0%Q (List.length vs)) (r :: rows))) as Hs.
     destruct (O _) as [f s| | |st|]; try discriminate; intros _.
     + destruct Hs as [[x [Px [Fx _]]] _]. unfold point_of, dim in Px. simpl in Px.
       rewrite repeat_length in Px. eauto.
     + destruct Hs as [[x [Px Fx]] _]. unfold point_of, dim in Px. simpl in Px.
       rewrite repeat_length in Px. eauto.
 Qed.
-Lemma is_polytope_empty_total m rows : lp_total O -> exists b, is_polytope_empty O m rows = inl b.
+Lemma is_polytope_empty_total rows : lp_total O -> exists b, is_polytope_empty O vs rows = inl b.
 Proof.
   intros HT. unfold is_polytope_empty. destruct rows as [|r rows]; [eexists; reflexivity|].
-  pose proof (HT (mkLP (repeat 0%Q m) (r :: rows))) as Ht.
+  destruct (Nat.eqb (List.length vs) 0); [eexists; reflexivity|].
+  pose proof (HT (mkLP vs (repeat 0%Q (List.length vs)) (r :: rows))) as Ht.
   destruct (O _) as [f s| | |st|]; try contradiction; eexists; reflexivity.
 Qed.
 End Empty.
@@ -442,18 +451,20 @@ Qed.
 Section Containment.
 Variable O : oracle.
 Hypothesis HO : lp_spec 0 O.
-Variable n : nat.
+Variable vs : list var.
+Hypothesis Hvs : vs <> [].
+Let n := List.length vs.
 
 Lemma containment_loop_true a_l a_r :
   wf_rows n a_r -> small_rows a_r -> (exists x0, List.length x0 = n /\ feas a_l x0) ->
-  containment_loop O a_l a_r = inl true ->
+  containment_loop O vs a_l a_r = inl true ->
   forall x, List.length x = n -> feas a_l x -> feas_tol a_r x.
 Proof.
   intros Hw Hsm Hne. induction a_r as [|[a b] rest IH]; intros H x Lx Fx; simpl in H.
   - constructor.
   - apply wf_rows_cons in Hw. destruct Hw as [La Hw]. simpl in La.
     apply small_rows_cons in Hsm. destruct Hsm as [Sb Hsm]. simpl in Sb.
-    pose proof (HO (mkLP (map qneg a) (a_l ++ [(a, qadd b 1)]))) as Hs.
+    pose proof (HO (mkLP vs (map qneg a) (a_l ++ [(a, qadd b 1)]))) as Hs.
     destruct (O _) as [f s| | |st|]; try discriminate.
     destruct (qle (qneg f) (tol_bound b)) eqn:E; [|discriminate].
     apply feas_tol_cons. split; [|apply IH; assumption]. simpl.
@@ -472,20 +483,20 @@ Qed.
 (* answer False: some point of a_l violates a_r — exactly, and (for small rows) beyond the tolerance *)
 Lemma containment_loop_false a_l a_r :
   wf_rows n a_r -> (exists x0, List.length x0 = n /\ feas a_l x0) ->
-  containment_loop O a_l a_r = inl false ->
+  containment_loop O vs a_l a_r = inl false ->
   exists x, List.length x = n /\ feas a_l x /\ ~ feas a_r x /\ (small_rows a_r -> ~ feas_tol a_r x).
 Proof.
   intros Hw Hne. induction a_r as [|[a b] rest IH]; intros H; simpl in H.
   - discriminate.
   - apply wf_rows_cons in Hw. destruct Hw as [La Hw]. simpl in La.
-    assert (Rec : containment_loop O a_l rest = inl false ->
+    assert (Rec : containment_loop O vs a_l rest = inl false ->
                   exists x, List.length x = n /\ feas a_l x /\ ~ feas ((a, b) :: rest) x /\
                             (small_rows ((a, b) :: rest) -> ~ feas_tol ((a, b) :: rest) x)).
     { intros H'. destruct (IH Hw H') as [x [Lx [Fx [Nx Tx]]]]. exists x. split; [exact Lx|].
       split; [exact Fx|]. split.
       - intros F. apply feas_cons in F. tauto.
       - intros Sm F. apply small_rows_cons in Sm. apply feas_tol_cons in F. tauto. }
-    pose proof (HO (mkLP (map qneg a) (a_l ++ [(a, qadd b 1)]))) as Hs.
+    pose proof (HO (mkLP vs (map qneg a) (a_l ++ [(a, qadd b 1)]))) as Hs.
     pose proof (tol_bound_ge b) as Hge.
     destruct (O _) as [f s| | |st|]; try discriminate.
     + destruct (qle (qneg f) (tol_bound b)) eqn:E; [apply Rec; exact H|].
@@ -511,11 +522,11 @@ Proof.
 Qed.
 
 Lemma containment_loop_total a_l a_r :
-  lp_total O -> exists b, containment_loop O a_l a_r = inl b.
+  lp_total O -> exists b, containment_loop O vs a_l a_r = inl b.
 Proof.
   intros HT. induction a_r as [|[a b] rest IH]; simpl; [eexists; reflexivity|].
-  pose proof (HO (mkLP (map qneg a) (a_l ++ [(a, qadd b 1)]))) as Hs.
-  pose proof (HT (mkLP (map qneg a) (a_l ++ [(a, qadd b 1)]))) as Ht.
+  pose proof (HO (mkLP vs (map qneg a) (a_l ++ [(a, qadd b 1)]))) as Hs.
+  pose proof (HT (mkLP vs (map qneg a) (a_l ++ [(a, qadd b 1)]))) as Ht.
   destruct (O _) as [f s| | |st|]; try contradiction.
   - destruct (qle (qneg f) (tol_bound b)); [exact IH|eexists; reflexivity].
   - eexists; reflexivity.
@@ -526,52 +537,52 @@ Qed.
 (* verify_polytope_containment *)
 Lemma vpc_true a_l a_r :
   wf_rows n a_r -> small_rows a_r ->
-  verify_polytope_containment O n a_l a_r = inl true ->
+  verify_polytope_containment O vs a_l a_r = inl true ->
   forall x, List.length x = n -> feas a_l x -> feas_tol a_r x.
 Proof.
   intros Hw Hsm H x Lx Fx. unfold verify_polytope_containment in H.
-  destruct (is_polytope_empty O n a_l) as [[|]|e] eqn:El; simpl in H; try discriminate.
+  destruct (is_polytope_empty O vs a_l) as [[|]|e] eqn:El; simpl in H; try discriminate.
   - exfalso. eapply is_polytope_empty_true; eauto.
-  - apply (is_polytope_empty_false O HO) in El.
-    destruct (is_polytope_empty O n a_r) as [[|]|e] eqn:Er; simpl in H; try discriminate.
+  - apply (is_polytope_empty_false O HO vs _ (or_intror Hvs)) in El.
+    destruct (is_polytope_empty O vs a_r) as [[|]|e] eqn:Er; simpl in H; try discriminate.
     eapply containment_loop_true; eauto.
 Qed.
 (* the emptiness pre-check of a_r is exact: when a_r has no point the answer is False although
    a_r relaxed by the tolerance may well contain a_l; hence the feasibility premise *)
 Lemma vpc_false a_l a_r :
   wf_rows n a_r ->
-  verify_polytope_containment O n a_l a_r = inl false ->
+  verify_polytope_containment O vs a_l a_r = inl false ->
   exists x, List.length x = n /\ feas a_l x /\ ~ feas a_r x /\
             (small_rows a_r -> (exists y, List.length y = n /\ feas a_r y) -> ~ feas_tol a_r x).
 Proof.
   intros Hw H. unfold verify_polytope_containment in H.
-  destruct (is_polytope_empty O n a_l) as [[|]|e] eqn:El; simpl in H; try discriminate.
-  apply (is_polytope_empty_false O HO) in El.
-  destruct (is_polytope_empty O n a_r) as [[|]|e] eqn:Er; simpl in H; try discriminate.
+  destruct (is_polytope_empty O vs a_l) as [[|]|e] eqn:El; simpl in H; try discriminate.
+  apply (is_polytope_empty_false O HO vs _ (or_intror Hvs)) in El.
+  destruct (is_polytope_empty O vs a_r) as [[|]|e] eqn:Er; simpl in H; try discriminate.
   - destruct El as [x0 [L0 F0]]. exists x0. split; [exact L0|]. split; [exact F0|].
-    pose proof (is_polytope_empty_true O HO _ _ Er) as Hemp. split.
+    pose proof (is_polytope_empty_true O HO vs _ Er) as Hemp. split.
     + apply Hemp. exact L0.
     + intros _ [y [Ly Fy]]. exfalso. apply (Hemp y Ly Fy).
   - destruct (containment_loop_false a_l a_r Hw El H) as [x [Lx [Fx [Nx Tx]]]].
     exists x. split; [exact Lx|]. split; [exact Fx|]. split; [exact Nx|]. intros Sm _. apply Tx. exact Sm.
 Qed.
-Lemma vpc_total a_l a_r : lp_total O -> exists b, verify_polytope_containment O n a_l a_r = inl b.
+Lemma vpc_total a_l a_r : lp_total O -> exists b, verify_polytope_containment O vs a_l a_r = inl b.
 Proof.
   intros HT. unfold verify_polytope_containment.
-  destruct (is_polytope_empty_total O n a_l HT) as [[|] ->]; simpl; [eexists; reflexivity|].
-  destruct (is_polytope_empty_total O n a_r HT) as [[|] ->]; simpl; [eexists; reflexivity|].
+  destruct (is_polytope_empty_total O vs a_l HT) as [[|] ->]; simpl; [eexists; reflexivity|].
+  destruct (is_polytope_empty_total O vs a_r HT) as [[|] ->]; simpl; [eexists; reflexivity|].
   apply containment_loop_total. exact HT.
 Qed.
 Lemma vpc_infeasible_right a_l a_r :
   lp_total O -> (exists x, List.length x = n /\ feas a_l x) ->
   (forall y, List.length y = n -> ~ feas a_r y) ->
-  verify_polytope_containment O n a_l a_r = inl false.
+  verify_polytope_containment O vs a_l a_r = inl false.
 Proof.
   intros HT [x [Lx Fx]] Hinf. unfold verify_polytope_containment.
-  destruct (is_polytope_empty_total O n a_l HT) as [[|] El]; rewrite El; simpl.
-  - exfalso. apply (is_polytope_empty_true O HO _ _ El x Lx Fx).
-  - destruct (is_polytope_empty_total O n a_r HT) as [[|] Er]; rewrite Er; simpl; [reflexivity|].
-    exfalso. apply (is_polytope_empty_false O HO) in Er. destruct Er as [y [Ly Fy]]. apply (Hinf y Ly Fy).
+  destruct (is_polytope_empty_total O vs a_l HT) as [[|] El]; rewrite El; simpl.
+  - exfalso. apply (is_polytope_empty_true O HO vs _ El x Lx Fx).
+  - destruct (is_polytope_empty_total O vs a_r HT) as [[|] Er]; rewrite Er; simpl; [reflexivity|].
+    exfalso. apply (is_polytope_empty_false O HO vs _ (or_intror Hvs)) in Er. destruct Er as [y [Ly Fy]]. apply (Hinf y Ly Fy).
 Qed.
 End Containment.
 
@@ -581,43 +592,44 @@ Section ReducePolytope.
 Variable O : oracle.
 Hypothesis HO : lp_spec 0 O.
 Variable n : nat.
+Variable vs : list var.
 
 Lemma reduce_polytope_cases rows ctx :
-  reduce_polytope O rows ctx = reduce_loop O [] rows ctx \/
-  (exists r, rows = [r] /\ ctx = [] /\ reduce_polytope O rows ctx = inl [r]).
+  reduce_polytope O vs rows ctx = reduce_loop O vs [] rows ctx \/
+  (exists r, rows = [r] /\ ctx = [] /\ reduce_polytope O vs rows ctx = inl [r]).
 Proof.
   unfold reduce_polytope. destruct rows as [|r [|r' rows]]; auto.
   destruct ctx; auto. right. eauto.
 Qed.
 
 Lemma reduce_polytope_subseq rows ctx red :
-  reduce_polytope O rows ctx = inl red -> subseq red rows.
+  reduce_polytope O vs rows ctx = inl red -> subseq red rows.
 Proof.
   destruct (reduce_polytope_cases rows ctx) as [->|[r [-> [-> ->]]]]; intros H.
-  - destruct (reduce_loop_subseq O _ _ _ _ H) as [sub [Hs ->]]. exact Hs.
+  - destruct (reduce_loop_subseq O vs _ _ _ _ H) as [sub [Hs ->]]. exact Hs.
   - inversion H; subst. apply subseq_refl.
 Qed.
 
 Lemma reduce_polytope_equiv rows ctx red :
-  wf_rows n rows -> reduce_polytope O rows ctx = inl red ->
+  wf_rows n rows -> reduce_polytope O vs rows ctx = inl red ->
   forall x, List.length x = n -> feas ctx x -> (feas red x <-> feas rows x).
 Proof.
   intros Hw. destruct (reduce_polytope_cases rows ctx) as [->|[r [-> [-> ->]]]]; intros H.
-  - apply (reduce_loop_equiv O HO n [] rows ctx red Hw H).
+  - apply (reduce_loop_equiv O HO n vs [] rows ctx red Hw H).
   - inversion H; subst. tauto.
 Qed.
 
 Lemma reduce_polytope_error rows ctx :
-  wf_rows n rows -> reduce_polytope O rows ctx = inr ValueErr ->
+  wf_rows n rows -> reduce_polytope O vs rows ctx = inr ValueErr ->
   forall x, List.length x = n -> ~ feas (rows ++ ctx) x.
 Proof.
   intros Hw. destruct (reduce_polytope_cases rows ctx) as [->|[r [-> [-> ->]]]]; intros H.
-  - intros x Lx. apply (reduce_loop_error O HO n [] rows ctx H x Lx Hw).
+  - intros x Lx. apply (reduce_loop_error O HO n vs [] rows ctx H x Lx Hw).
   - discriminate.
 Qed.
 
 Lemma reduce_polytope_errors_only rows ctx e :
-  reduce_polytope O rows ctx = inr e -> e = ValueErr \/ e = OracleMiss.
+  reduce_polytope O vs rows ctx = inr e -> e = ValueErr \/ e = OracleMiss.
 Proof.
   destruct (reduce_polytope_cases rows ctx) as [->|[r [-> [-> ->]]]]; intros H.
   - eapply reduce_loop_errors_only; eauto.
@@ -625,12 +637,12 @@ Proof.
 Qed.
 
 Lemma reduce_polytope_irredundant rows ctx red :
-  lp_total O -> wf_rows n rows -> reduce_polytope O rows ctx = inl red ->
+  lp_total O -> wf_rows n rows -> reduce_polytope O vs rows ctx = inl red ->
   (forall r, rows = [r] -> ctx = [] -> witness n [] r []) ->
   forall pre r post, red = pre ++ r :: post -> witness n ctx r (pre ++ post).
 Proof.
   intros HT Hw. destruct (reduce_polytope_cases rows ctx) as [->|[r0 [-> [-> ->]]]]; intros H Hshort.
-  - apply (reduce_loop_irredundant O HO n HT [] rows ctx red Hw H).
+  - apply (reduce_loop_irredundant O HO n vs HT [] rows ctx red Hw H).
     intros pre r post E. destruct pre; discriminate.
   - inversion H; subst. intros pre r post E.
     destruct pre as [|p pre].
